@@ -388,6 +388,30 @@ def check_normal(ctx, kind, rv, n, d, fkind, tag):
         rm, rc = ans.take(nn), ans.take(nn, nn)
         cmp_vec(ctx, "rescale.mean", rs[0], rm, np.abs(fl(rm)), case, f"{kind}:rescale_cholesky:mean")
         cmp_cov(ctx, "rescale.cov", rs[1], rc, fl(np.diag(rc)), case, f"{kind}:rescale_cholesky:cov")
+    # batched rescaling (one factor per batch entry, as for a stack of states with per-step output scales): entry i of the
+    # result is the un-batched rescaling with factor i; the batch length equals the number of coefficients so that a
+    # factor broadcast along the wrong axis is not caught by shapes alone
+    import jax
+
+    Kb = int(_np(rv.cholesky_flat).shape[-1])
+    if Kb >= 2:
+        rvb = jax.tree_util.tree_map(lambda x: jnp.stack([x] * Kb), rv)
+        fb = np.asarray([fac * (1.0 + 0.5 * i) for i in range(Kb)])
+        facb = jnp.asarray(fb[:, None] * (np.arange(1, d + 1)[None, :])) if kind == "bd" else jnp.asarray(fb)
+        try:
+            rb = rvb.rescale_cholesky(facb)
+            same = all(
+                np.allclose(_np(rb.cholesky_flat)[i], _np(rv.rescale_cholesky(facb[i]).cholesky_flat), rtol=1e-14, atol=0.0)
+                and np.array_equal(_np(rb.mean_flat)[i], _np(rv.mean_flat))
+                for i in range(Kb)
+            )
+        except Exception as e:  # noqa: BLE001
+            same = False
+            ctx.notes.append(f"batched rescale_cholesky raised {type(e).__name__}") if hasattr(ctx, "notes") and len(ctx.notes) < 5 else None
+        if not same:
+            ctx.violation(f"{kind}:rescale_cholesky:batched", "rescale_cholesky of a stacked Gaussian with one factor per batch entry differs from the entry-wise rescaling",
+                          case_desc(kind, "normal-batched-rescale", **tag, factors=np.asarray(facb).tolist()))
+        ctx.count("rescale.batched")
     # std layout: dense: coefficient-major flat; iso: one scalar per coefficient; bd: (d,n) -> tree of n leaves of d
     if kind == "dense":
         v = var_model[0]
